@@ -68,11 +68,11 @@ theorem grouped_untouched_by_ungrouped (st : State) (common : Labels) (ops : Lis
 
 /-- **C16.3b** `other_groups_untouched` (partial: hypothesis `NoCrossGroupSeries` for `g'`): a
 group `g'` that the batch does not mention keeps exactly its series, with their values, provided
-no operation of the batch addresses a series (name, label values) that `g'` owns. Without the
+no write operation of the batch addresses a series (name, label values) that `g'` owns. Without the
 hypothesis the statement is false — `cross_group_witness`. -/
 theorem other_groups_untouched_partial (st : State) (common : Labels) (ops : List Op) (order : List Nat)
     (g' : Nat) (hg' : g' ∉ order)
-    (hno : ∀ op ∈ ops, ∀ e ∈ owned st.gentries g', (e.name, e.key) ≠ opIdent common op) :
+    (hno : ∀ op ∈ ops, op.action ≠ "expire" → ∀ e ∈ owned st.gentries g', (e.name, e.key) ≠ opIdent common op) :
     owned (sendBatch st common ops order).1.gentries g' = owned st.gentries g' := by
   unfold sendBatch
   split
@@ -85,7 +85,7 @@ theorem other_groups_untouched_partial (st : State) (common : Labels) (ops : Lis
       simp only [List.foldl_cons]
       have hne : g ≠ g' := fun h => hg' (by simp [h])
       have h1 := applyGroupOperations_owned_other common st g g' (ops.filter (·.group == g)) hne
-        (fun op hop e he => hno op (List.mem_filter.mp hop).1 e he)
+        (fun op hop hx e he => hno op (List.mem_filter.mp hop).1 hx e he)
       rw [ih _ (fun h => hg' (List.mem_cons_of_mem _ h)) (by rw [h1]; exact hno), h1]
 
 theorem foldl_groups_IdIn_other (common : Labels) (ops : List Op) (order : List Nat) (g : Nat)
@@ -149,7 +149,7 @@ the sum of the `add`s, nothing for what was written before an explicit `expire`,
 anything the batch does not write (whatever `g` reported earlier). -/
 theorem group_replacement_partial (st : State) (common : Labels) (ops : List Op) (g : Nat)
     (hp : PartOK g ops)
-    (hNoCross : ∀ op ∈ ops, ∀ e ∈ st.gentries, (e.name, e.key) = opIdent common op → e.group = g)
+    (hNoCross : ∀ op ∈ ops, op.action ≠ "expire" → ∀ e ∈ st.gentries, (e.name, e.key) = opIdent common op → e.group = g)
     (hNoClash : ∀ op ∈ ops, op.action ≠ "expire" → getOrCreateColl st op.name (opFam op) ≠ none) :
     ∀ k, ownedLookup (sendBatch st common ops [g]).1.gentries g k = (Spec.written common ops).lookup k := by
   have hv : validBatch ops = true := by
@@ -164,6 +164,97 @@ theorem group_replacement_partial (st : State) (common : Labels) (ops : List Op)
   have := foldl_written common g ops hp ops (fun _ h => h) (expireGroup st g) [] hinv.expire
     (fun k => by rw [ownedLookup_expire]; rfl) k
   simpa [sendBatch, hv, hfg, hf0, sendBatchV0, applyGroupOperations, Spec.written] using this
+
+/-- what a batch that mentions several groups must satisfy (the finding classes, stated on the
+batch): valid and as the parser hands it over; two different groups never write the same series
+(`NoCrossGroupSeries` inside the batch); one type per name among the grouped writes. -/
+structure BatchOK (common : Labels) (ops : List Op) : Prop where
+  valid : ∀ op ∈ ops, validOp op = true
+  norm : ∀ op ∈ ops, Normalized op
+  disj : ∀ op ∈ ops, ∀ op' ∈ ops, op.group ≠ 0 → op'.group ≠ 0 → op.group ≠ op'.group →
+    op.action ≠ "expire" → op'.action ≠ "expire" → opIdent common op ≠ opIdent common op'
+  same : ∀ op ∈ ops, ∀ op' ∈ ops, op.group ≠ 0 → op'.group ≠ 0 → op.name = op'.name →
+    op.action ≠ "expire" → op'.action ≠ "expire" → op.action = op'.action
+
+theorem foldl_pre_ReplInv (common : Labels) (ops : List Op) (g : Nat) (all : List Op) (pre : List Nat)
+    (hpre : ∀ g2 ∈ pre, g2 ≠ g ∧ OtherOK common all (ops.filter (·.group == g2))) (s : State)
+    (h : ReplInv common g all s) :
+    ReplInv common g all (pre.foldl (fun st g2 => applyGroupOperations common st g2 (ops.filter (·.group == g2))) s) := by
+  induction pre generalizing s with
+  | nil => exact h
+  | cons g2 rest ih =>
+    simp only [List.foldl_cons]
+    exact ih (fun x hx => hpre x (List.mem_cons_of_mem _ hx)) _
+      (h.other_group g2 (hpre g2 (by simp)).1 _ (hpre g2 (by simp)).2)
+
+theorem foldl_post_owned (common : Labels) (ops : List Op) (g : Nat) (all : List Op) (post : List Nat)
+    (hpost : ∀ g2 ∈ post, g2 ≠ g ∧ OtherOK common all (ops.filter (·.group == g2))) (s : State)
+    (hid : IdIn s.gentries g (writeIdents common all)) :
+    owned (post.foldl (fun st g2 => applyGroupOperations common st g2 (ops.filter (·.group == g2))) s).gentries g
+      = owned s.gentries g := by
+  induction post generalizing s with
+  | nil => rfl
+  | cons g2 rest ih =>
+    simp only [List.foldl_cons]
+    have h1 := ownedLookup_other_group common s g g2 (hpost g2 (by simp)).1 all _ hid (hpost g2 (by simp)).2
+    rw [ih (fun x hx => hpost x (List.mem_cons_of_mem _ hx)) _ (by intro e he; rw [h1] at he; exact hid e he), h1]
+
+/-- **C16.3a** `group_replacement` for a batch that mentions several groups, for every iteration
+order of the Go map (each group visited once): under `BatchOK` and, for the group `g` looked at,
+`NoCrossGroupSeries` / `NoNameClash` against the state, what `g` owns after the batch is exactly
+what its operations describe (`Spec.written`), with the values given. -/
+theorem group_replacement_multi_partial (st : State) (common : Labels) (ops : List Op) (order : List Nat)
+    (g : Nat) (hb : BatchOK common ops) (hg : g ∈ order) (hnd : order.Nodup) (h0 : 0 ∉ order)
+    (hNoCross : ∀ op ∈ ops, op.group = g → op.action ≠ "expire" →
+      ∀ e ∈ st.gentries, (e.name, e.key) = opIdent common op → e.group = g)
+    (hNoClash : ∀ op ∈ ops, op.group = g → op.action ≠ "expire" →
+      getOrCreateColl st op.name (opFam op) ≠ none) :
+    ∀ k, ownedLookup (sendBatch st common ops order).1.gentries g k =
+      (Spec.written common (ops.filter (·.group == g))).lookup k := by
+  have hv : validBatch ops = true := by
+    simp only [validBatch, List.all_eq_true]; exact hb.valid
+  have hgne : g ≠ 0 := fun h => h0 (h ▸ hg)
+  -- the part of g and the parts of the others
+  have hmemf : ∀ {x : Nat} {op : Op}, op ∈ ops.filter (·.group == x) → op ∈ ops ∧ op.group = x := by
+    intro x op h; have := List.mem_filter.mp h; exact ⟨this.1, by simpa using this.2⟩
+  have hp : PartOK g (ops.filter (·.group == g)) :=
+    ⟨fun op h => hb.valid op (hmemf h).1, fun op h => hb.norm op (hmemf h).1, fun op h => (hmemf h).2, hgne,
+     fun op h op' h' hn hx hx' => hb.same op (hmemf h).1 op' (hmemf h').1 (by rw [(hmemf h).2]; exact hgne)
+       (by rw [(hmemf h').2]; exact hgne) hn hx hx'⟩
+  have hother : ∀ g2 ∈ order, g2 ≠ g → OtherOK common (ops.filter (·.group == g)) (ops.filter (·.group == g2)) := by
+    intro g2 hg2 hne
+    have hg2ne : g2 ≠ 0 := fun h => h0 (h ▸ hg2)
+    refine ⟨fun op h => hb.valid op (hmemf h).1, fun op h => hb.norm op (hmemf h).1,
+      fun op h => by rw [(hmemf h).2]; exact hg2ne, ?_, ?_⟩
+    · intro op2 h2 hx2 op h hx
+      exact hb.disj op (hmemf h).1 op2 (hmemf h2).1 (by rw [(hmemf h).2]; exact hgne)
+        (by rw [(hmemf h2).2]; exact hg2ne) (by rw [(hmemf h).2, (hmemf h2).2]; exact fun e => hne e.symm) hx hx2
+    · intro op2 h2 hx2 op h hx hn
+      exact hb.same op (hmemf h).1 op2 (hmemf h2).1 (by rw [(hmemf h).2]; exact hgne)
+        (by rw [(hmemf h2).2]; exact hg2ne) hn hx hx2
+  have hinv : ReplInv common g (ops.filter (·.group == g)) st :=
+    ⟨fun op h hx => hNoCross op (hmemf h).1 (hmemf h).2 hx,
+     fun op h hx => (getOrCreateColl_ne_none st op.name (opFam op)).mp (hNoClash op (hmemf h).1 (hmemf h).2 hx)⟩
+  obtain ⟨pre, post, rfl⟩ := List.append_of_mem hg
+  have hnd' := List.nodup_append.mp hnd
+  have hgpost : g ∉ post := (List.nodup_cons.mp hnd'.2.1).1
+  have hgpre : g ∉ pre := fun h => hnd'.2.2 g h g (by simp) rfl
+  have hpre : ∀ g2 ∈ pre, g2 ≠ g ∧ OtherOK common (ops.filter (·.group == g)) (ops.filter (·.group == g2)) :=
+    fun g2 h => ⟨fun e => hgpre (e ▸ h), hother g2 (by simp [h]) (fun e => hgpre (e ▸ h))⟩
+  have hpost : ∀ g2 ∈ post, g2 ≠ g ∧ OtherOK common (ops.filter (·.group == g)) (ops.filter (·.group == g2)) :=
+    fun g2 h => ⟨fun e => hgpost (e ▸ h), hother g2 (by simp [h]) (fun e => hgpost (e ▸ h))⟩
+  intro k
+  simp only [sendBatch, hv, Bool.not_true, Bool.false_eq_true, if_false, (sendBatchV0_g common _ _).2,
+    List.foldl_append, List.foldl_cons]
+  generalize hs1 : pre.foldl (fun st g2 => applyGroupOperations common st g2 (ops.filter (·.group == g2))) st = s1
+  have hinv1 : ReplInv common g (ops.filter (·.group == g)) s1 := by
+    rw [← hs1]; exact foldl_pre_ReplInv common ops g _ pre hpre st hinv
+  have hid2 := applyGroupOperations_IdIn common s1 g (ops.filter (·.group == g))
+  unfold ownedLookup
+  rw [foldl_post_owned common ops g _ post hpost _ hid2]
+  have := foldl_written common g _ hp (ops.filter (·.group == g)) (fun _ h => h) (expireGroup s1 g) []
+    hinv1.expire (fun k => by rw [ownedLookup_expire]; rfl) k
+  simpa [applyGroupOperations, Spec.written, ownedLookup] using this
 
 /-- non-vacuity of `group_replacement_partial`: a state where `g = 1` already owns two series and
 another group owns one of the same name; the new batch re-sends one, drops one, adds a counter twice. -/
